@@ -27,7 +27,8 @@ PROPS = {
     "C06": dict(kinds=["pfsmin", "pfsmax"], dirs=["out", "in"], cyc=[False], flavours=ALL4, cmp=True),
     "C07": dict(kinds=ALLK, dirs=["out", "in"], cyc=[False, True], flavours=ALL4, rej_quick="small", rej_thorough="all", nvals_quick=[0],
                 kinds_quick=["bfs", "dfs", "pfsmin", "pre", "post"]),
-    "C08": dict(kinds=ALLK, dirs=["out", "in"], cyc=[False, True], flavours=["digraph", "sync_digraph"], nvals_quick=[0]),
+    "C08": dict(kinds=ALLK, dirs=["out", "in"], cyc=[False, True], flavours=["digraph", "sync_digraph"], nvals_quick=[0],
+                record_dirs=["in"], record_scale=4),
     "C09": dict(kinds=["bfs", "dfs", "pfsmin", "pfsmax"], dirs=["out", "in"], cyc=[True], flavours=ALL4),
     "C10": dict(kinds=["pre", "post"], dirs=["out", "in"], cyc=[False], flavours=ALL4),
 }
@@ -195,9 +196,9 @@ def run(pid, tier, seed):
     jobs = []
     for fl in flavours:
         tr = os.path.join(d, "trace_%s.ndjson" % fl)
-        jobs.append(("record-search", dict(flavour=fl, seed=seed, graphs=T["graphs"], nodes=pad, pad=pad, queries=T["queries"],
+        jobs.append(("record-search", dict(flavour=fl, seed=seed, graphs=T["graphs"] * conf.get("record_scale", 1), nodes=pad, pad=pad, queries=T["queries"],
                                            kinds=",".join(conf["kinds"]), cyc=",".join("true" if c else "false" for c in conf["cyc"]),
-                                           transposed=",".join("true" if x == "in" else "false" for x in conf["dirs"]), trace=tr),
+                                           transposed=",".join("true" if x == "in" else "false" for x in conf.get("record_dirs", conf["dirs"])), trace=tr),
                      os.path.join(d, "rec_%s.json" % fl)))
     recs = vlib.harness_parallel(jobs)
     if conf.get("cmp"):
